@@ -757,12 +757,34 @@ enum BaseKind {
     Id,
 }
 
+/// pass-through wrapper around the BASE collector, underneath every layer
+/// (`Box::new(Registry::default()).with(l0)...`)
+#[derive(Clone, Copy, Debug, PartialEq, Eq, Hash, PartialOrd, Ord)]
+enum BW {
+    Box,
+    Arc,
+    BoxBox,
+    ArcBox,
+}
+impl BW {
+    fn name(self) -> &'static str {
+        match self {
+            BW::Box => "Box<base collector>",
+            BW::Arc => "Arc<base collector>",
+            BW::BoxBox => "Box<Box<base collector>>",
+            BW::ArcBox => "Arc<Box<base collector>>",
+        }
+    }
+}
+const ALL_BW: [BW; 4] = [BW::Box, BW::Arc, BW::BoxBox, BW::ArcBox];
+
 #[derive(Clone, Debug, PartialEq)]
 struct StackSpec {
     base: BaseKind,
     /// innermost first (`base.with(elems[0]).with(elems[1])...`)
     elems: Vec<Elem>,
     cwrap: Vec<CW>,
+    bwrap: Option<BW>,
 }
 impl StackSpec {
     fn show(&self, used: &[u32]) -> String {
@@ -770,6 +792,13 @@ impl StackSpec {
             BaseKind::Reg => "Registry".to_string(),
             BaseKind::Id => "IdBase".to_string(),
         };
+        match self.bwrap {
+            None => {}
+            Some(BW::Box) => s = format!("Box::new({s})"),
+            Some(BW::Arc) => s = format!("Arc::new({s})"),
+            Some(BW::BoxBox) => s = format!("Box::new(Box::new({s}))"),
+            Some(BW::ArcBox) => s = format!("Arc::new(Box::new({s}))"),
+        }
         for e in &self.elems {
             s.push_str(&format!(".with({})", e.show(used)));
         }
@@ -779,11 +808,11 @@ impl StackSpec {
         s
     }
     fn all_bare(&self) -> bool {
-        self.cwrap.is_empty() && self.elems.iter().all(|e| e.is_plain_bare())
+        self.bwrap.is_none() && self.cwrap.is_empty() && self.elems.iter().all(|e| e.is_plain_bare())
     }
     /// oracle 1 applies: bare layers and plain and_then trees only
     fn o1_shape(&self) -> bool {
-        self.cwrap.is_empty() && self.elems.iter().all(|e| e.is_plain_bare() || e.is_plain_tree())
+        self.bwrap.is_none() && self.cwrap.is_empty() && self.elems.iter().all(|e| e.is_plain_bare() || e.is_plain_tree())
     }
     /// recording layers in the order notifications must reach them, with the index of the
     /// stack element they belong to
@@ -987,9 +1016,18 @@ fn build(spec: &StackSpec, log: &Arc<Log>) -> Dispatch {
     assert!(spec.elems.len() <= MAXD, "HARNESS: too many elements");
     let fin = Fin { log: log.clone(), cwrap: spec.cwrap.clone() };
     log.op("build".into());
-    match spec.base {
-        BaseKind::Reg => r0(Registry::default(), spec.elems.clone().into_iter(), &fin),
-        BaseKind::Id => i0(IdBase::new(log.clone()), spec.elems.clone().into_iter(), &fin),
+    let it = spec.elems.clone().into_iter();
+    match (spec.base, spec.bwrap) {
+        (BaseKind::Reg, None) => r0(Registry::default(), it, &fin),
+        (BaseKind::Reg, Some(BW::Box)) => r0(Box::new(Registry::default()), it, &fin),
+        (BaseKind::Reg, Some(BW::Arc)) => r0(Arc::new(Registry::default()), it, &fin),
+        (BaseKind::Reg, Some(BW::BoxBox)) => r0(Box::new(Box::new(Registry::default())), it, &fin),
+        (BaseKind::Reg, Some(BW::ArcBox)) => r0(Arc::new(Box::new(Registry::default())), it, &fin),
+        (BaseKind::Id, None) => i0(IdBase::new(log.clone()), it, &fin),
+        (BaseKind::Id, Some(BW::Box)) => i0(Box::new(IdBase::new(log.clone())), it, &fin),
+        (BaseKind::Id, Some(BW::Arc)) => i0(Arc::new(IdBase::new(log.clone())), it, &fin),
+        (BaseKind::Id, Some(BW::BoxBox)) => i0(Box::new(Box::new(IdBase::new(log.clone()))), it, &fin),
+        (BaseKind::Id, Some(BW::ArcBox)) => i0(Arc::new(Box::new(IdBase::new(log.clone()))), it, &fin),
     }
 }
 
@@ -1920,6 +1958,9 @@ fn targets(reference: &StackSpec, variant: &StackSpec) -> Vec<Target> {
     if reference.cwrap != variant.cwrap {
         ts.push(Target { ws: nest_name(&variant.cwrap, CW::name), whos: vec![], all: true, pos: variant.elems.len() });
     }
+    if reference.bwrap != variant.bwrap {
+        ts.push(Target { ws: variant.bwrap.map(BW::name).unwrap_or("bare base").to_string(), whos: vec![], all: true, pos: 0 });
+    }
     ts
 }
 
@@ -2309,6 +2350,8 @@ enum SysKind {
     FilterNone,
     Absent(Absent),
     Collector(Vec<CW>),
+    /// the base collector inside Box / Arc, underneath the layers
+    Base(BW),
 }
 
 #[derive(Clone, Debug)]
@@ -2399,6 +2442,11 @@ fn sys_cases(thorough: bool) -> Vec<SysCase> {
                     v.push(SysCase { base, n, p: 0, kind: SysKind::Collector(nest.clone()), sv });
                 }
             }
+            for bw in ALL_BW {
+                for sv in [0, 1, 2, 4] {
+                    v.push(SysCase { base, n, p: 0, kind: SysKind::Base(bw), sv });
+                }
+            }
         }
     }
     v
@@ -2457,15 +2505,15 @@ fn sys_cmp(c: &SysCase, cl: &[u32]) -> Cmp {
         SysKind::FilteredLayer(_) => (true, true),
         SysKind::Filter(_) => (false, true),
         SysKind::FilterNone => (false, false),
-        SysKind::Absent(_) | SysKind::Collector(_) => (false, false),
+        SysKind::Absent(_) | SysKind::Collector(_) | SysKind::Base(_) => (false, false),
     };
     let pseudo_target = match c.kind {
         // for absent / collector cases the script variant goes to a real layer
         SysKind::Absent(_) => Some(c.p.min(c.n.saturating_sub(1))),
-        SysKind::Collector(_) => Some(if c.sv == 2 { c.n.saturating_sub(1) } else { 0 }),
+        SysKind::Collector(_) | SysKind::Base(_) => Some(if c.sv == 2 { c.n.saturating_sub(1) } else { 0 }),
         _ => None,
     };
-    let mut reference = StackSpec { base: c.base, elems: vec![], cwrap: vec![] };
+    let mut reference = StackSpec { base: c.base, elems: vec![], cwrap: vec![], bwrap: None };
     for i in 0..c.n {
         let is_t = (i == c.p && target_is_layer) || pseudo_target == Some(i);
         let sc = sys_script(c.sv, is_t, i == vetoer, c.n, cl);
@@ -2513,6 +2561,9 @@ fn sys_cmp(c: &SysCase, cl: &[u32]) -> Cmp {
         }
         SysKind::Collector(nest) => {
             variant.cwrap = nest.clone();
+        }
+        SysKind::Base(bw) => {
+            variant.bwrap = Some(*bw);
         }
     }
     Cmp { name: format!("sys {:?}", c), reference, variant, ops: rich_ops() }
@@ -2575,7 +2626,7 @@ fn rand_kinds(rng: &mut Rng) -> Vec<Kind> {
 fn rand_cmp(rng: &mut Rng, cl: &[u32], kinds: &[Kind], j: u64) -> Cmp {
     let n = 1 + rng.usize(5);
     let base = if rng.chance(2, 5) { BaseKind::Id } else { BaseKind::Reg };
-    let mut reference = StackSpec { base, elems: vec![], cwrap: vec![] };
+    let mut reference = StackSpec { base, elems: vec![], cwrap: vec![], bwrap: None };
     // one third of the random stacks stay all-bare (oracle 1 applies), without hints
     let all_bare = rng.chance(1, 3);
     for i in 0..n {
@@ -2612,7 +2663,16 @@ fn rand_cmp(rng: &mut Rng, cl: &[u32], kinds: &[Kind], j: u64) -> Cmp {
             }
             v
         };
-        match rng.below(10) {
+        match rng.below(11) {
+            10 => {
+                // (per-layer filters over a wrapped Registry are not generated: `Filtered` needs
+                // `LookupSpan::register_filter`, which Box / Arc answer with the documented
+                // "does not currently support filters" panic)
+                if variant.bwrap.is_none() && variant.elems.iter().all(|e| e.filt.is_none()) {
+                    variant.bwrap = Some(*rng.pick(&ALL_BW));
+                    done += 1;
+                }
+            }
             0..=3 => {
                 let e = &mut variant.elems[pos];
                 if e.nest.is_empty() {
@@ -2874,7 +2934,7 @@ fn tree_cases(thorough: bool) -> Vec<TreeCase> {
 
 /// build `base.with(L..).with(tree).with(L..)`; `script_of(i)` gives layer i's script
 fn tree_stack(base: BaseKind, shape: &str, below: usize, above: usize, script_of: &mut dyn FnMut(u8) -> Script) -> StackSpec {
-    let mut spec = StackSpec { base, elems: vec![], cwrap: vec![] };
+    let mut spec = StackSpec { base, elems: vec![], cwrap: vec![], bwrap: None };
     let mut next = 0u8;
     for _ in 0..below {
         spec.elems.push(Elem::layer(next, script_of(next)));
